@@ -18,7 +18,8 @@
 (*        (atoms after the second restricted to LongKinds):                             *)
 (*        every order of the unify calls, occurs-check cycles of every length through   *)
 (*        fun and list, one variable used at two types, and solvable ones; the short    *)
-(*        ones also with x0 : nat, x1 : bool declared in the context.                   *)
+(*        ones also with x0 : nat, x1 : bool, ?x0 : bool, ?x1 : bool declared in the    *)
+(*        context.  Schematic variables ?x_i carry the NAMES of the variables x_i.      *)
 (* Invariants                                                                           *)
 (*   ContractSane       : an original is a good result of each of its erasures          *)
 (*   ModelTerminates, ModelGoodResult, ModelErasure (= ModelMeetsContract): the         *)
@@ -35,6 +36,7 @@ CONSTANTS MaxSize,           \* size bound of typed terms
           NV, MaxAtoms,      \* constraint skeletons: variables and atoms
           AtomKinds,         \* subset of {"A","E","L","F","P","N","B","M"}: kinds of the first two atoms
           LongKinds,         \* kinds of the atoms after the second
+          ShortKinds, ShortLen, \* further kinds ("SP","SN","SE","SA": schematic variables), only in conjunctions of <= ShortLen atoms
           DeclAtoms,         \* conjunctions of at most this many atoms are also run with x0 : nat, x1 : bool declared
           Variants,          \* which erasures a typed state stands for: set of <<keep pattern, variables declared>>
           ExactOccursCheck,  \* the implementation's occurs check follows the bindings (exact reachability)
@@ -66,7 +68,9 @@ vxs == V("xs", ListT(NatT))               vas == V("as", ListT(TA))
 vF == V("F", FunT(FunT(NatT, NatT), NatT))      \* higher-order variables
 vH == V("H", FunT(FunT(TA, BoolT), BoolT))
 ss == <<"svar", "s", NatT>>               st == <<"svar", "t", TA>>
-Vars == {vx, vy, vi, vr, va, vb, vp, vq, vf, vg, vP, vR, vxs, vas, vF, vH, ss, st}
+\* schematic variables whose NAME is also the name of an ordinary variable: ?x : nat => bool (x : nat), ?p : bool (p : bool)
+sx == <<"svar", "x", FunT(NatT, BoolT)>>           sp == <<"svar", "p", BoolT>>
+Vars == {vx, vy, vi, vr, va, vb, vp, vq, vf, vg, vP, vR, vxs, vas, vF, vH, ss, st, sx, sp}
 ConstLeaves == { C("true", BoolT), C("zero", NatT), C("zero", IntT), C("zero", RealT), C("one", NatT), C("one", RealT),
                  C("nil", ListT(NatT)), C("nil", ListT(TA)) }
 Leaves == Vars \cup ConstLeaves
@@ -106,7 +110,9 @@ GrowBind(t) == LET T == Ty(t) IN
 XV(i) == <<"var", "x" \o ToString(i), NoneT>>
 C0(n) == <<"const", n, NoneT>>
 Eq0(a, b) == Bin(C0("equals"), a, b)
-Atoms == { a \in [k : AtomKinds, i : 0..(NV - 1), j : 0..(NV - 1)] : a.k \in {"P","N","B","M"} => a.j = 0 }
+XS(i) == <<"svar", "x" \o ToString(i), NoneT>>        \* the schematic variable ?x_i: same NAME as the variable x_i
+AllKinds == AtomKinds \cup ShortKinds
+Atoms == { a \in [k : AllKinds, i : 0..(NV - 1), j : 0..(NV - 1)] : a.k \in {"P","N","B","M","SP","SN"} => a.j = 0 }
 AtomTerm(a) ==
   CASE a.k = "A" -> App(XV(a.i), XV(a.j))                                   \* x_i x_j  (a proposition)
     [] a.k = "E" -> Eq0(XV(a.i), XV(a.j))                                   \* x_i = x_j
@@ -116,11 +122,15 @@ AtomTerm(a) ==
     [] a.k = "N" -> Eq0(XV(a.i), App(C0("Suc"), XV(a.i)))                   \* x_i = Suc x_i
     [] a.k = "B" -> <<"var", XV(a.i)[2], BoolT>>                            \* (x_i::bool)
     [] a.k = "M" -> Eq0(<<"var", XV(a.i)[2], NatT>>, C0("zero"))            \* (x_i::nat) = 0
+    [] a.k = "SP" -> XS(a.i)                                                \* ?x_i  (a proposition)
+    [] a.k = "SN" -> Eq0(XS(a.i), App(C0("Suc"), XS(a.i)))                  \* ?x_i = Suc ?x_i
+    [] a.k = "SE" -> Eq0(XS(a.i), XV(a.j))                                  \* ?x_i = x_j
+    [] a.k = "SA" -> App(XS(a.i), XV(a.j))                                  \* ?x_i x_j  (a proposition)
 RECURSIVE ConjOf(_,_)
 ConjOf(seq, i) == IF i = Len(seq) THEN AtomTerm(seq[i]) ELSE Bin(C0("conj"), AtomTerm(seq[i]), ConjOf(seq, i + 1))
 \* canonical variable order: x_k occurs only after x_0 .. x_(k-1)   (renaming is a symmetry of the algorithm)
 RECURSIVE UsedAfter(_,_,_)
-AtomUses(a) == IF a.k \in {"A","E","L","F"} THEN <<a.i, a.j>> ELSE <<a.i>>
+AtomUses(a) == IF a.k \in {"A","E","L","F","SE","SA"} THEN <<a.i, a.j>> ELSE <<a.i>>
 Bad == 99
 Use1(m, v) == IF m = Bad \/ v > m THEN Bad ELSE IF v = m THEN m + 1 ELSE m
 StepUsed(m, us) == IF Len(us) = 1 THEN Use1(m, us[1]) ELSE Use1(Use1(m, us[1]), us[2])
@@ -129,9 +139,10 @@ Canonical(seq) == UsedAfter(seq, 1, 0) # Bad
 
 \* ---------------------------------------------------------------- what a state stands for
 VariantsAll == { <<k, d>> : k \in KeepPatterns, d \in BOOLEAN }
-VariantsQuick == { <<"none", TRUE>>, <<"vars", TRUE>>, <<"cb", TRUE>>, <<"none", FALSE>>, <<"all", FALSE>> }
+VariantsQuick == { <<"none", TRUE>>, <<"vars", TRUE>>, <<"cb", TRUE>>, <<"none", FALSE>> }
+VariantsDeep == VariantsQuick \cup { <<"all", FALSE>> }
 NoCtx == [vars |-> <<>>, svars |-> <<>>]
-XCtx == [vars |-> << <<"x0", NatT>>, <<"x1", BoolT>> >>, svars |-> <<>>]
+XCtx == [vars |-> << <<"x0", NatT>>, <<"x1", BoolT>> >>, svars |-> << <<"x0", BoolT>>, <<"x1", BoolT>> >>]
 DeclCtx(t) == [vars |-> SetToSeq({ <<v[2], v[3]>> : v \in { v \in VarOccs(t) : v[1] = "var" } }),
                svars |-> SetToSeq({ <<v[2], v[3]>> : v \in { v \in VarOccs(t) : v[1] = "svar" } })]
 Case(f, keep, decl, skel, ctx, orig) == [fam |-> f, keep |-> keep, declared |-> decl, skel |-> skel, ctx |-> ctx, orig |-> orig]
@@ -140,7 +151,7 @@ CasesOf(f, t, c) ==
   THEN { Case("typed", v[1], v[2], EraseP(t, v[1]), IF v[2] THEN DeclCtx(t) ELSE NoCtx, t) : v \in Variants }
   ELSE IF c = <<>> THEN {}
   ELSE { Case("cs", "none", FALSE, t, NoCtx, NoTerm) }
-       \* the same conjunction with x0 and x1 DECLARED in the context (bare and annotated uses of a declared variable,
+       \* the same conjunction with x0, x1, ?x0, ?x1 DECLARED in the context (bare and annotated uses of a declared variable,
        \* in both orders, agreeing or not with the declaration)
        \cup (IF Len(c) <= DeclAtoms THEN { Case("cs", "decl", TRUE, t, XCtx, NoTerm) } ELSE {})
 \* names of the contract clauses that the algorithm model fails on a case
@@ -166,7 +177,8 @@ GrowTyped(G(_)) == /\ fam = "typed" /\ steps < MaxSteps
                    /\ steps' = steps + 1 /\ UNCHANGED <<fam, cs>>
 AddAtom == /\ fam = "cs" /\ Len(cs) < MaxAtoms
            /\ \E a \in Atoms : LET c2 == Append(cs, a) IN
-                   (Len(cs) >= 2 => a.k \in LongKinds) /\ Canonical(c2) /\ cs' = c2 /\ cur' = ConjOf(c2, 1) /\ mc' = ModelFails(fam, ConjOf(c2, 1), c2)
+                   (Len(cs) >= 2 => a.k \in LongKinds) /\ (a.k \in AtomKinds \/ Len(c2) <= ShortLen)
+                   /\ (Len(c2) > ShortLen => \A n \in 1..Len(cs) : cs[n].k \in AtomKinds) /\ Canonical(c2) /\ cs' = c2 /\ cur' = ConjOf(c2, 1) /\ mc' = ModelFails(fam, ConjOf(c2, 1), c2)
            /\ steps' = steps + 1 /\ UNCHANGED fam
 Next == GrowTyped(GrowApp) \/ GrowTyped(GrowBin) \/ GrowTyped(GrowBind) \/ AddAtom
 Spec == Init /\ [][Next]_vars
